@@ -243,7 +243,14 @@ class Gen:
             snd["script"].insert(rng.randint(0, len(snd["script"])), ["PUT", self.nid, mb, sz, rate])
             actors.append({"name": "r%d" % k, "host": rh, "script": [["S", float("%.4g" % logu(rng, 1e-3, 2.0))], ["GET", self.nid, mb]]})
             self.nid += 1
-        return {"platform": self.p, "actors": actors, "ti": self.ti, "features": sorted(self.feats)}
+        w = {"platform": self.p, "actors": actors, "ti": self.ti, "features": sorted(self.feats)}
+        if any(l.get("bwprof") for l in self.p["links"]):
+            # With cross-traffic a comm also sits on the constraints of its reverse route, and NetworkCm02Link::set_bandwidth adds the change of
+            # weight-S/bandwidth to the penalty of every comm of the constraint, including those that never counted that link in their penalty:
+            # the penalty can go negative and the run aborts ("Variable penalty should not be negative!") under every configuration alike.
+            # That is outside C19; bandwidth profiles are exercised without cross-traffic.
+            w["crosstraffic"] = False
+        return w
 
 
 TI_CLASSES = [[], ["profile"], ["prio"], ["prio", "profile"], ["tiny", "huge"], ["suspend"], ["suspend", "profile"], ["pstate"],
